@@ -5,3 +5,10 @@ import Gittuf.Proofs.Loop
 #print axioms Gittuf.World.lookForFix_partition
 #print axioms Gittuf.World.lookForFix_sub
 #print axioms Gittuf.World.relLoop_sound_gen
+#print axioms Gittuf.World.lookForFix_shape
+#print axioms Gittuf.World.latestFor_skip_run
+#print axioms Gittuf.World.relLoop_recovery_gen
+#print axioms Gittuf.World.range_QInv
+#print axioms Gittuf.World.C07_relative_tolerated
+#print axioms Gittuf.World.tolerated_of_TolWith
+#print axioms Gittuf.World.C07_full_tolerated
